@@ -267,6 +267,7 @@ namespace {
       const size_t nargs = arg_pool().size();
       bool conv_planned = false;
       int fetches = 0;
+      std::vector<std::vector<int>> planned(static_cast<size_t>(n_names));
       for (int i = 0; i < n; ++i) {
         J op = J::object();
         op["a"] = J(int(plan.below(uint64_t(T))));
@@ -275,6 +276,7 @@ namespace {
           op["k"] = J("reg");
           op["name"] = J(int(plan.below(uint64_t(n_names))));
           op["sig"] = J(int(plan.below(ncat)));
+          planned[size_t(op.at("name").num())].push_back(int(op.at("sig").num()));
         } else if (k == 3 && !conv_planned) {
           op["k"] = J("conv");
           conv_planned = true;
@@ -293,11 +295,27 @@ namespace {
           op["to"] = J(int(plan.below(8)));
         } else {
           op["k"] = J("call");
-          op["name"] = J(int(plan.below(uint64_t(n_names))));
+          const int name = int(plan.below(uint64_t(n_names)));
+          op["name"] = J(name);
           J args = J::array();
-          const int arity = plan.chance(700) ? 1 : (plan.chance(850) ? 2 : int(plan.below(4)));
-          for (int q = 0; q < arity; ++q) {
-            args.push(J(int(plan.below(nargs))));
+          if (!planned[size_t(name)].empty() && plan.chance(650)) {
+            // aim at one of the overloads planned for this name: arguments that some relation admits
+            const Sig &sg = catalogue()[size_t(plan.pick(planned[size_t(name)]))];
+            for (const Param &pp : sg.params) {
+              std::vector<int> fits;
+              for (size_t ai = 0; ai < nargs; ++ai) {
+                std::string e;
+                if (allowed(pp, arg_pool()[ai], true, e)) {
+                  fits.push_back(int(ai));
+                }
+              }
+              args.push(J(fits.empty() ? int(plan.below(nargs)) : plan.pick(fits)));
+            }
+          } else {
+            const int arity = plan.chance(700) ? 1 : (plan.chance(850) ? 2 : int(plan.below(4)));
+            for (int q = 0; q < arity; ++q) {
+              args.push(J(int(plan.below(nargs))));
+            }
           }
           op["args"] = args;
         }
